@@ -53,7 +53,11 @@ Second == /\ stage = 1
 \* stage 2: what makes the statement of its kind
 Switch == /\ stage = 2
           /\ IF kind = "delete" THEN Do([m |-> "delete"])
-             ELSE IF kind = "insertselect" THEN Do([m |-> "into", src |-> "T5"])
+             ELSE IF kind = "insertselect" THEN
+                  \* (with a first select item, so that two clause calls - a conflict target and its handler - already give a complete statement)
+                  LET c1 == [m |-> "into", src |-> "T5"]
+                      c2 == [m |-> "select", terms |-> <<Fld(b.from[1], "c")>>] IN
+                  /\ hist' = hist \o <<c1, c2>> /\ b' = Step(Step(b, c1), c2)
              ELSE IF kind = "insertvalues" THEN Do([m |-> "insert", row |-> <<Num("1"), Num("2")>>])
              ELSE UNCHANGED <<b, hist>>
           /\ stage' = 3 /\ UNCHANGED <<kind, scope>>
@@ -64,6 +68,7 @@ ClauseCalls(f) ==
         { [m |-> "select", terms |-> <<f>>], [m |-> "groupby", terms |-> <<f>>], [m |-> "having", crit |-> Gt(Sum(f), Num("1"))],
           [m |-> "orderby", terms |-> <<f>>, dir |-> ""] } ELSE {})
     \cup (IF kind \in {"select", "insertselect", "update", "delete"} THEN {[m |-> "where", crit |-> Cmp(f, Num("1"))]} ELSE {})
+    \cup (IF kind = "select" THEN {[m |-> "prewhere", crit |-> Cmp(f, Num("2"))]} ELSE {})
     \cup (IF kind = "update" THEN {[m |-> "set", col |-> "b", val |-> f], [m |-> "setf", f |-> f, val |-> Num("5")]} ELSE {})
     \cup (IF kind = "delete" THEN {[m |-> "orderby", terms |-> <<f>>, dir |-> ""]} ELSE {})
     \cup (IF kind \in {"update", "delete", "insertvalues"} THEN {[m |-> "returning", terms |-> <<f>>]} ELSE {})
@@ -74,7 +79,7 @@ NameCalls == IF kind = "insertvalues" THEN {[m |-> "columns", names |-> <<"a", "
              ELSE IF kind = "insertselect" THEN {[m |-> "columns", names |-> <<"a">>], [m |-> "on_conflict", names |-> <<"a">>], [m |-> "do_nothing"]} ELSE {}
 Clause == /\ stage >= 3 /\ stage < 3 + MaxClauses
           /\ \/ \E s \in scope \cup Outside, col \in {"a", "b"} : \E c \in ClauseCalls(Fld(s, col)) :
-                    /\ (s \in Outside /\ s \notin scope => c.m = "where")       \* an outside source (table, aliased subquery, CTE reference) only in WHERE
+                    /\ (s \in Outside /\ s \notin scope => c.m \in {"where", "prewhere"})       \* an outside source (table, aliased subquery, CTE reference) only in WHERE
                     /\ (c.m \in {"returning", "do_update"} => s \in scope)
                     /\ (c.m \in {"setf", "columnsf"} => s = hist[1].src)                \* name positions take columns of the statement's own table
                     /\ Do(c)
